@@ -295,7 +295,7 @@ pub fn generate(prop: &str, ctx: &mut Ctx, rep: &mut Report, emit: &mut dyn FnMu
     let mut rng = Rng::new(ctx.seed ^ 0xC01);
     let op = match prop { "C02" => "spec.enc", "C03" => "spec.dec", "C15" => "json.enc", _ => "enc" };
     // all block counts across the array-head boundaries
-    let counts: Vec<u64> = if ctx.tier_thorough { (0..=300).collect() } else { vec![0, 1, 2, 20, 21, 22, 23, 24, 25, 254, 255, 256, 257] };
+    let counts: Vec<u64> = if ctx.tier_thorough { (0..=300).collect() } else { vec![0, 1, 2, 20, 21, 22, 23, 24, 25, 134, 135, 136, 137, 138, 139, 254, 255, 256, 257, 391, 392, 393, 394] };
     for n in counts {
         let mut b = gen_bundle(&mut rng, &Opts { wf: true, max_blocks: 0 });
         b.canonicals = (0..n).map(|_| gen_block(&mut rng, true)).collect();
@@ -336,7 +336,7 @@ pub fn generate(prop: &str, ctx: &mut Ctx, rep: &mut Report, emit: &mut dyn FnMu
             emit(ctx, rep, format!("{} {}", op, toks.join(" ")));
         }
         emit(ctx, rep, format!("{} {}", op, show_bundle(&b)));
-        if i % 40 == 7 && prop != "C03" {
+        if i % 40 == 7 {
             // the same bundle again with ONE field changed, back to back on the same thread (whatever an encoder
             // remembers from the previous call — buffers, "same header" shortcuts — must not leak into the next)
             let base = b.clone();
@@ -359,6 +359,13 @@ pub fn generate(prop: &str, ctx: &mut Ctx, rep: &mut Report, emit: &mut dyn FnMu
                 emit(ctx, rep, format!("{} {}", op, show_bundle(&v)));
                 if k % 4 == 3 { emit(ctx, rep, format!("{} {}", op, show_bundle(&base))); }
             }
+        }
+        if prop == "C15" && (i == 5 || i == n / 2) {
+            // a JSON text beyond 1 MiB, then ordinary bundles on the same thread
+            let mut big = gen_bundle(&mut rng, &Opts { wf: true, max_blocks: 2 });
+            big.set_payload(rng.bytes(400_000));
+            emit(ctx, rep, format!("{} {}", op, show_bundle(&big)));
+            for _ in 0..3 { let small = gen_bundle(&mut rng, &Opts { wf: true, max_blocks: 3 }); emit(ctx, rep, format!("{} {}", op, show_bundle(&small))); }
         }
         if (prop == "C04" || prop == "C01") && (i == 5 || i == n / 2) {
             // blocks beyond 1 MiB (streaming / scratch-buffer code paths), with and without reserved flag bits, and
